@@ -1101,7 +1101,10 @@ class TorchBackendProvider(BackendProvider):
             method = methods.get(op)
             if method is None:
                 return None
-            return f'({arg_src}).{method}'
+            # [0:] is the identity on a tensor of rank >= 1 and refuses a 0-d tensor
+            # (the result of a reduction), for which cumsum(0) would return the 0-d
+            # tensor where Scan-Over of an atom is the one-element list.
+            return f'({arg_src})[0:].{method}'
 
         return None
 
